@@ -937,6 +937,14 @@ class Lib:
     def sp_EMPTY_LIST_REF(self, st, node):
         return self.eng.empty_list(st, "ref:" + node.args[0].value)
 
+    def sp_NEW_OBJ(self, st, node):
+        return self.eng.alloc(st, node.args[0].value)
+
+    def sp_EMPTY_DICT_REF(self, st, node):
+        vs = "ref:" + node.args[0].value
+        return VDict(z3.K(U, z3.BoolVal(False)),
+                     st.fresh("dval", z3.ArraySort(U, IntS)), vs)
+
     def sp_NEW_EMPTY_DICT(self, st, node):
         eng = self.eng
         r = eng.alloc(st, "DictObj")
@@ -953,6 +961,16 @@ class Lib:
 
     _REFS = {"sl_ref": "ShardsList", "sli_ref": "ShardListInfo",
              "si_ref": "ShardInfo", "fi_ref": "FileInfo"}
+
+    def sp_di_ref(self, st, node):
+        return self._as_ref(st, node, "DatasetInfo")
+
+    def sp_fxn(self, st, node):
+        return st.ghost["FXN"]
+
+    def sp_curver(self, st, node):
+        from .models import CURVER
+        return VU(CURVER)
 
     def sp_sl_ref(self, st, node):
         return self._as_ref(st, node, "ShardsList")
@@ -1374,10 +1392,10 @@ class Lib:
             if heapkeys:
                 eng.havoc_heap(st, heapkeys)
                 self.frame_axioms(st, fc, pre)
-            if fc.modifies:
-                nr = st.fresh("next_ref", IntS)
-                st.assume(nr >= st.next_ref)
-                st.next_ref = nr
+            # the callee may allocate
+            nr = st.fresh("next_ref", IntS)
+            st.assume(nr >= st.next_ref)
+            st.next_ref = nr
             if fc.fs_effects is not None:
                 ghosts = [g for g in ghosts if g != "fs"]
             self.havoc_ghosts(st, ghosts, False)
@@ -1396,10 +1414,14 @@ class Lib:
                 st.locals["result"] = result
                 for cl in fc.ensures:
                     st.assume(eng.spec_bool(st, cl))
+                if not st.feasible(z3.BoolVal(True)):
+                    raise E.PathEnd()   # the callee cannot return normally here
                 return result
             exc = outcomes[c]
             for cl in fc.raises[exc]:
                 st.assume(eng.spec_bool(st, cl))
+            if not st.feasible(z3.BoolVal(True)):
+                raise E.PathEnd()       # this exceptional outcome is impossible here
             raise E.RaiseEx(exc, line, f"from {fc.qualname}")
         finally:
             st.locals = saved_locals
